@@ -797,6 +797,85 @@ def auto_batch(ctx, quick):
     return {"auto_batch_sequences": len(cases), "auto_batch_branches": branches, "auto_batch_disagreements": nd}
 
 
+STALL_SCENARIOS = [
+    {"n_jobs": 2, "pre": "n_jobs", "return_as": "generator", "N": 8, "tfail": None, "ifail": None, "reuse": True},
+    {"n_jobs": 3, "pre": 1, "return_as": "list", "N": 7, "tfail": None, "ifail": None, "reuse": True},
+    {"n_jobs": 2, "pre": "all", "return_as": "generator_unordered", "N": 6, "tfail": None, "ifail": None, "reuse": True},
+    {"n_jobs": 2, "pre": "n_jobs", "return_as": "generator_unordered", "N": 8, "tfail": 3, "ifail": None, "reuse": True},
+    {"n_jobs": 2, "pre": "2*n_jobs", "return_as": "generator", "N": 9, "tfail": None, "ifail": 5, "reuse": True},
+    {"n_jobs": 3, "pre": "n_jobs", "return_as": "list", "N": 9, "tfail": 4, "ifail": None, "reuse": True},
+]
+
+
+def stall_probe(ctx, quick, prop):
+    """below layer A (a test, never a proof): one thread role is stalled at one source line of the dispatch /
+    completion / retrieval code while the real threading backend runs; the outcome must not change"""
+    rc, out, err = common.run_impl("m1_stall.py", args=["--points"], timeout=120)
+    pts = json.loads([l for l in out.splitlines() if l.startswith("[")][-1])
+    rng = ctx.rng
+    cases = []
+    for at in pts:
+        for role in ("cb", "main"):
+            scs = STALL_SCENARIOS if not quick else [rng.choice(STALL_SCENARIOS)]
+            for sc in scs:
+                cases.append(dict(sc, at=at, role=role, hits=list(range(1, 13)), delay=0.03, watchdog=40))
+    nproc = max(1, min(common.NCPU - 2, 12))
+    chunks = [cases[i::nproc] for i in range(nproc)]
+    script = os.path.join(common.ROOT, "harness", "impl", "m1_stall.py")
+    env = common.impl_env()
+
+    def work(ch):
+        res = []
+        todo = list(ch)
+        while todo:
+            p = subprocess.run([common.PY, script], input="\n".join(json.dumps(c) for c in todo) + "\n",
+                               stdout=subprocess.PIPE, stderr=subprocess.PIPE, text=True, env=env, timeout=3600)
+            got = [json.loads(l) for l in p.stdout.splitlines() if l.startswith("{")]
+            if not got:
+                got = [{"harness_error": "no output: " + p.stderr[-500:]}]
+            res.extend(got)
+            todo = todo[len(got):]       # a hang ends the child after the case that hung
+        return res
+    with ThreadPoolExecutor(nproc) as ex:
+        outs = list(ex.map(work, chunks))
+    visited = stalled = 0
+    nv = 0
+    for ch, rs in zip(chunks, outs):
+        for c, r in zip(ch, rs):
+            if "harness_error" in r:
+                ctx.note("stall probe case failed to run: " + r["harness_error"][:200])
+                continue
+            visited += 1 if r.get("visits") else 0
+            stalled += r.get("stalls", 0)
+            what = None
+            tags = {"C04"}
+            if r.get("hang"):
+                what = "the call hangs"
+            for k, call in enumerate(r.get("calls", [])):
+                tf = c["tfail"] if k == 0 else None
+                jf = c["ifail"] if k == 0 else None
+                exp = list(range(c["N"]))
+                if tf is None and jf is None:
+                    vals = call["values"]
+                    okv = vals is not None and (sorted(vals) if c["return_as"] == "generator_unordered" else vals) == exp
+                    if not okv:
+                        what = what or "call %d gave %s / raised %s instead of 0..%d" % (k + 1, vals, call["raised"], c["N"] - 1)
+                        tags |= {"C01", "C16"} if c["return_as"] != "list" else {"C01"}
+                elif tf is not None:
+                    if call["raised"] != ["TaskFail", [tf]]:
+                        what = what or "call %d: task %d failed but the call gave %s / raised %s" % (k + 1, tf, call["values"], call["raised"])
+                else:
+                    if not call["raised"] or call["raised"][0] != "IterFail":
+                        what = what or "call %d: the input failed but the call gave %s / raised %s" % (k + 1, call["values"], call["raised"])
+            if what and prop in tags and nv < 2:
+                nv += 1
+                ctx.violation("threading backend, %s thread stalled %d ms before %s line %d: %s" % (
+                    "callback/worker" if c["role"] == "cb" else "caller", int(c["delay"] * 1000), c["at"][0], c["at"][1], what),
+                    {"kind": "stall-probe", "case": c, "result": r}, True)
+    return {"stall_points": len(pts), "stall_cases": len(cases), "stall_cases_that_reached_their_line": visited,
+            "stalls_injected": stalled}
+
+
 def sync_backend(ctx, quick, prop, profile, scale=1.0):
     """Model/ParallelSync.v against joblib.Parallel with a backend that has supports_retrieve_callback = False"""
     import m1s_common
@@ -809,12 +888,14 @@ def extra_c01(ctx, quick):
     cov.update(lock_probe(ctx, quick, "C01"))
     cov.update(auto_batch(ctx, quick))
     cov.update(sync_backend(ctx, quick, "C01", "c01"))
+    cov.update(stall_probe(ctx, quick, "C01"))
     return cov
 
 
 def extra_c04(ctx, quick):
     cov = real_sampling(ctx, quick, "C04", 0.7)
     cov.update(sync_backend(ctx, quick, "C04", "c04"))
+    cov.update(stall_probe(ctx, quick, "C04"))
     return cov
 
 
@@ -827,6 +908,7 @@ def extra_c09(ctx, quick):
 def extra_c16(ctx, quick):
     cov = real_sampling(ctx, quick, "C16", 0.2)
     cov.update(sync_backend(ctx, quick, "C16", "c01", 0.5))
+    cov.update(stall_probe(ctx, quick, "C16"))
     return cov
 
 
